@@ -488,6 +488,14 @@ func c07attack(r *rng.R, i int) attack {
 		a.End = "halfclose"
 		return a
 	case 8:
+		if r.Bool() {
+			// one connection sends commands of the WRONG TYPE for large containers (each answered with an error)
+			// while another connection writes those containers (handled by wrongTypeVsWriter)
+			a.Kind = "wrong-type-commands-vs-writer"
+			a.End = "concurrent"
+			a.Stream = []byte(fmt.Sprintf("wrong-type-%d", i))
+			return a
+		}
 		// one connection floods CONFIG SET/GET while other clients connect and go away (handled by configChurn)
 		a.Kind = "config-set-flood-vs-connection-churn"
 		a.End = "concurrent"
@@ -661,6 +669,18 @@ func c07session(idx int) run.Result {
 			}
 			continue
 		}
+		if a.Kind == "wrong-type-commands-vs-writer" {
+			bad := wrongTypeVsWriter(srv.port, n, &res, wit)
+			res.Count("witness_exchanges", 1)
+			if bad != "" {
+				fail("C07:witness-disturbed:"+a.Kind, "every other connection continues to receive the correct replies to its own requests", bad)
+				if !restart() {
+					res.Inconclusive = "could not restart server child"
+					return res
+				}
+			}
+			continue
+		}
 		if a.Kind == "config-set-flood-vs-connection-churn" {
 			bad := configChurn(srv.port, n, &res, wit)
 			res.Count("witness_exchanges", 1)
@@ -828,6 +848,77 @@ func slowWitness(port int, n string, res *run.Result) (bad string, inconclusive 
 // configChurn: one connection pipelines CONFIG SET / CONFIG GET as fast as it can while twelve others connect,
 // PING and vanish over and over; the witness keeps doing exact SET/GET exchanges. Every exchange has a 10 s
 // deadline (a watchdog: a reply that does not come at all is the violation, not a slow one).
+// wrongTypeVsWriter: a hash with 20000 fields, a list and a set are written by one connection while another sends
+// them commands of the wrong type (LLEN on the hash, HGET on the list, ...): each of those is answered (with an error, nil
+// or 0) and nothing else happens - whatever the server does to produce that reply, it does not disturb the writer,
+// the witness or the process. A fixed number of operations per connection, no clock in the verdict.
+func wrongTypeVsWriter(port int, n string, res *run.Result, wit *tcpClient) string {
+	setup, err := dialSrv(port)
+	if err != nil {
+		return "setup connection: " + err.Error()
+	}
+	defer setup.c.Close()
+	h, l, st := "wt:h:"+n, "wt:l:"+n, "wt:s:"+n
+	for b := 0; b < 10; b++ {
+		args := []string{"HMSET", h}
+		for k := 0; k < 2000; k++ {
+			args = append(args, fmt.Sprint("f", b*2000+k), "v")
+		}
+		if v, err := setup.do(args...); err != nil || v.IsErr() {
+			return fmt.Sprintf("populating the hash: %v %v", v, err)
+		}
+	}
+	if v, err := setup.do("RPUSH", l, "a", "b", "c"); err != nil || v.IsErr() {
+		return fmt.Sprintf("populating the list: %v %v", v, err)
+	}
+	if v, err := setup.do("SADD", st, "a", "b", "c"); err != nil || v.IsErr() {
+		return fmt.Sprintf("populating the set: %v %v", v, err)
+	}
+	var wg sync.WaitGroup
+	var bad atomic.Value
+	run := func(name string, reqs func(i int) [][]string, wantErr bool) {
+		defer wg.Done()
+		c, err := dialSrv(port)
+		if err != nil {
+			bad.CompareAndSwap(nil, name+": "+err.Error())
+			return
+		}
+		defer c.c.Close()
+		for i := 0; i < 150; i++ {
+			for _, q := range reqs(i) {
+				v, err := c.do(q...)
+				if err != nil {
+					bad.CompareAndSwap(nil, fmt.Sprintf("%s: %v: %v", name, q[:2], err))
+					return
+				}
+				// (what a command answers for a key of another type - an error, nil, 0 - is the store's business
+				// here; that it answers, with a well-formed reply, is what counts)
+				if !wantErr && v.IsErr() {
+					bad.CompareAndSwap(nil, fmt.Sprintf("%s: %v answered %s", name, q[:2], clipS(v.String(), 120)))
+					return
+				}
+			}
+		}
+	}
+	wg.Add(2)
+	go run("wrong-type connection", func(i int) [][]string {
+		return [][]string{{"LLEN", h}, {"SCARD", h}, {"LRANGE", h, "0", "-1"}, {"SMEMBERS", h}, {"ZCARD", h}, {"HGET", l, "f"}, {"SADD", l, "m"}, {"LPUSH", st, "x"}, {"ZADD", l, "1", "m"}}
+	}, true)
+	go run("writer connection", func(i int) [][]string {
+		return [][]string{{"HSET", h, fmt.Sprint("g", i), "v"}, {"HDEL", h, fmt.Sprint("f", i)}, {"RPUSH", l, fmt.Sprint("e", i)}, {"SADD", st, fmt.Sprint("m", i)}}
+	}, false)
+	wg.Wait()
+	res.Count("wrong_type_vs_writer_rounds", 1)
+	if b := bad.Load(); b != nil {
+		return b.(string)
+	}
+	if v, err := wit.do("ECHO", n); err != nil || !resp.Equal(v, resp.BulkS(n)) {
+		return fmt.Sprintf("witness ECHO after the round: %v %v", v, err)
+	}
+	setup.do("DEL", h, l, st)
+	return ""
+}
+
 func configChurn(port int, n string, res *run.Result, wit *tcpClient) string {
 	stop := make(chan struct{})
 	var wg sync.WaitGroup
